@@ -263,7 +263,7 @@ BP_POISON = [
 ]
 VAR_POISON = [
     ("id", [None, 5, "Ser-ver", "", "a b", "x_y", "S\u00e9rver", "Server\u00b2", "\uff33erver", "\u0421\u0435\u0440\u0432\u0435\u0440", "\u0663", "Server\n"]),
-    ("uid", ["Mis-aligned", "zzz"]),
+    ("uid", ["Mis-aligned", "zzz", None, 5]),
     ("name", [None, "", 5]),
     ("type", [None, "layered", "Variant", ""]),
     ("arches", [[]]),
